@@ -419,7 +419,7 @@ def run(ctx):
     setup(ctx)
     wd = workdir(ctx)
     try:
-        n = ctx.n(2400, 60000)
+        n = ctx.n(2000, 60000)
         if not ctx.proof_ok:
             n = max(n, 6000)
         done = 0
